@@ -122,8 +122,8 @@ PROPS = {
             "modelled": FS + ["'rebuild bookkeeping … leaves every retained user-created snapshot byte-identical': the rebuild profile (reload without preload, UpdateLUNMap with and without a foreground write inside its window, promotion) is run for C06 as well; snapshot images are compared after it"]},
     "C07": {"lean": ["JivaVerif.Properties.C07", "JivaVerif.Properties.Controller"],
             "prefixes": ["c07_", "sameWrites_", "c10_promotion", "ctl_reachable_inv"],
-            "runs": [dict(rep("rebuild", 320, 30, 3000, 40, 8), **{"thorough": {"n": 3000, "len": 40, "timeout": 6000}}), ctl("membership", 320, 30, 6000, 40, 18),
-                     dict(rep("rebuildreal", 16, 25, 320, 30, 28), **{"quick": {"n": 16, "len": 25, "timeout": 900}, "thorough": {"n": 320, "len": 30, "timeout": 6000}})],
+            "runs": [dict(rep("rebuild", 320, 30, 2000, 40, 8), **{"thorough": {"n": 2000, "len": 40, "timeout": 6000}}), ctl("membership", 320, 30, 6000, 40, 18),
+                     dict(rep("rebuildreal", 16, 25, 192, 30, 28), **{"quick": {"n": 16, "len": 25, "timeout": 900}, "thorough": {"n": 192, "len": 30, "timeout": 6000}})],
             "modelled": FS + CTL + [
                 "harness (rebuild profile): a REAL controller with the REAL remote backend drives three REAL replicas behind their REST and RPC servers on loopback addresses (harness/stack); the harness plays the sync agent only: it copies the source's snapshot files (holes preserved) and head metadata under the newcomer, reloads it without preload and calls UpdateLUNMap, as sync.syncFiles / reloadAndVerify do",
                 "profile rebuildreal: the WHOLE procedure is run by the real sync.Task.AddReplica against the real controller REST server — registration check, CreateReplica, SetRebuilding, PrepareRebuild (head metadata transfer), the chain / counter comparison, syncFiles with the real sync agents and ssync child processes, ReloadReplica, SyncDir, UpdateLUNMap, VerifyRebuildReplica, SetRebuilding(false); the harness only holds three of its REST requests (preparerebuild, the response of reload, verifyrebuild) to place foreground writes in between; profile rebuild (25 times faster) replaces the transfer by a sparse copy and calls Reload / UpdateLUNMap / VerifyRebuildReplica itself in the order of sync.reloadAndVerify",
